@@ -208,6 +208,23 @@ func (r *EngineRunner) openImage(root string, cfg []string) (string, map[string]
 				return
 			}
 			d, derr := dumpDB(db)
+			if derr == nil {
+				// the space accounting of the recovered database (C17): DiskSize - ReclaimableSize is exactly what
+				// the live records occupy, whatever the crash left behind (unfinished batches, torn tails)
+				st := db.Stat()
+				var live int64
+				for k := range d {
+					if p := db.VerifPos([]byte(k)); p != nil {
+						live += int64(p.Size)
+					}
+				}
+				if st.KeyNum != len(d) {
+					r.fail("C17", "Stat after crash recovery: KeyNum = %d, live keys = %d", st.KeyNum, len(d))
+				}
+				if st.ReclaimableSize < 0 || st.ReclaimableSize > st.DiskSize || st.DiskSize-st.ReclaimableSize != live {
+					r.fail("C17", "Stat after crash recovery: DiskSize %d, ReclaimableSize %d, the live records occupy %d", st.DiskSize, st.ReclaimableSize, live)
+				}
+			}
 			_ = db.Close()
 			if derr != nil {
 				res = "err dump:" + EngErr(derr)
@@ -447,7 +464,7 @@ func (r *EngineRunner) crashLines(f []string, emit func(line, res string)) {
 			r.crashOracle(k, oc, res, d1, d2)
 			cutTok := strings.TrimSuffix(cut, ":hdr")
 			emit(fmt.Sprintf("E crashat %d %s %s", k, cutTok, strings.Join(cfg, " ")), res)
-			if strings.HasSuffix(cut, ":hdr") && d1 != nil {
+			if (strings.HasSuffix(cut, ":hdr") || (strings.HasPrefix(cut, "at:") && r.crashProp == "C03")) && d1 != nil {
 				// the recovered database goes on: one more Put, a restart, another restart
 				if err := r.shadow.materialize(k, r.dir(), root, cutf); err == nil {
 					res := r.continuePlain(k, root, cfg, d1)
